@@ -1,11 +1,15 @@
 (* C06 -- server event buffer.  Two layers:
    (1) the event LOG (abstract view used by Cs104/Server.v): theorems below, for every history;
-   (2) the byte-offset RING (Cs104/MsgQueue.v, transcription of the MessageQueue functions): executed against the C
-       functions operation by operation on every run, and checked against the abstract log by the oracle.
-   PARTIAL: the ring invariant ("the walk from firstEntry to lastEntry visits exactly the log, in order,
-   inside the arena") is not proved in Coq; the refinement ring -> log is checked at run time only. *)
+   (2) the byte-offset RING (Cs104/MsgQueue.v, literal transcription of the MessageQueue functions, executed against the
+       C functions operation by operation on every run): proved in Cs104/MqRingProofs.v for EVERY ring size and EVERY
+       history -- the walk from firstEntry to lastEntry visits exactly the live entries, oldest first, inside the arena;
+       no header is ever read where no live entry starts; enqueue loses nothing but a prefix of the OLDEST entries;
+       getNextWaiting hands out the oldest waiting entry; confirmation by (entry pointer, entry id) is safe for every pair
+       ever handed out, however stale (last theorems of this file).
+   PARTIAL: the two layers are connected by the run-time oracle, not by a Coq refinement (layer 1 identifies entries by id,
+   layer 2 by offset); the capacity clause (N equal-size entries are retained) is evaluated by the oracle only. *)
 From Coq Require Import ZArith List Bool.
-From L60870 Require Import Cs104.Server Cs104.EventLogProofs Cs104.MsgQueue.
+From L60870 Require Import Cs104.Server Cs104.EventLogProofs Cs104.MsgQueue Cs104.MqRingProofs.
 Import ListNotations.
 Local Open Scope Z_scope.
 
@@ -43,3 +47,48 @@ Example C06_ring_wrap_example :
              mq_enqueue d (repeat 0 248) | Fault w => Fault w end | Fault w => Fault w end | Fault w => Fault w end | Fault w => Fault w end) = Ok q
             /\ cnt q = 1 /\ first q = 0 /\ last q = 0 /\ lib q = 0.
 Proof. cbv zeta. eexists. split; [vm_compute; reflexivity | repeat split]. Qed.
+
+(* ---- layer 2: the byte ring -----------------------------------------------------------------------------------
+   MQInv q l: l is the list of (offset, entry) pairs of the live entries, oldest first; it says the entries are stored
+   back to back in at most two runs inside [0, qsize), carry consecutive ids ending at nid-1, and that
+   firstEntry / lastEntry / lastInBufferEntry / entryCounter describe exactly this layout. *)
+
+(* every history on a ring of any size: enqueue (any ASDU), getNextWaiting, confirm (of ANY pair handed out before,
+   however old), setWaitingWhenNotConfirmed, the read-only queries -- never a read of a header where no live entry starts *)
+Theorem C06_ring_history : forall n ops, 1 <= n -> 1 + Z.of_nat (length ops) < TWO64 - 1 ->
+  exists q' outs l', mq_run (mq_new n) [] ops = MsgQueue.Ok (q', outs) /\ MQInv q' l'.
+Proof.
+  intros n ops Hn Hl. apply (mq_no_fault ops (mq_new n) [] []); [apply MQInv_new; exact Hn | constructor | exact Hl].
+Qed.
+
+(* enqueue: the new entry (id = next id, state waiting, the ASDU's octets) goes to the tail; the ONLY loss is a prefix of
+   the oldest entries (what is retained is the most recent contiguous run); an ASDU above 250 octets changes nothing *)
+Theorem C06_ring_enqueue : forall q l a, MQInv q l ->
+  (250 < MqRingProofs.lenz a -> mq_enqueue q a = MsgQueue.Ok q) /\
+  (MqRingProofs.lenz a <= 250 -> exists q' D nx, mq_enqueue q a = MsgQueue.Ok q' /\ (D <= length l)%nat /\
+       MQInv q' (skipn D l ++ [(nx, new_ent q a)]) /\ nid q' = nid q + 1 /\ qsize q' = qsize q).
+Proof. exact mq_enqueue_spec. Qed.
+
+(* getNextWaitingASDU: the oldest waiting entry, with its octets, is handed out and marked sent; nothing else changes *)
+Theorem C06_ring_next : forall q l, MQInv q l ->
+  match first_waiting l with
+  | None => mq_next q = MsgQueue.Ok (None, q)
+  | Some (o, e) => exists q', mq_next q = MsgQueue.Ok (Some (o, e), q') /\ MQInv q' (upd_at o MsgQueue.QSENT l) /\ In (o, e) l /\
+                              nid q' = nid q /\ cnt q' = cnt q /\ qsize q' = qsize q
+  end.
+Proof. exact mq_next_spec. Qed.
+
+(* markAsduAsConfirmed with a pair from the k-buffer: a stale pair is ignored without touching the arena, a live one is
+   marked confirmed and, when it is the head, released *)
+Theorem C06_ring_confirm : forall q l o id, MQInv q l -> nid q < TWO64 -> valid_pair q l o id ->
+  exists q', mq_confirm q o id = MsgQueue.Ok q' /\ MQInv q' (confirm_lay q l o id) /\ nid q' = nid q /\ qsize q' = qsize q.
+Proof. exact mq_confirm_spec. Qed.
+
+(* connection loss: every sent entry waits again; layout, ids and octets untouched *)
+Theorem C06_ring_reset : forall q l, MQInv q l ->
+  exists q', mq_reset_waiting q = MsgQueue.Ok q' /\ MQInv q' (reset_lay l l) /\ nid q' = nid q /\ cnt q' = cnt q /\ qsize q' = qsize q.
+Proof. exact mq_reset_waiting_spec. Qed.
+
+(* live entries lie inside the arena of n * 272 octets *)
+Theorem C06_ring_entries_in_arena : forall q l p, MQInv q l -> In p l -> 0 <= fst p /\ fst p + MqRingProofs.esz (snd p) <= qsize q.
+Proof. exact mq_entries_in_arena. Qed.
